@@ -14,6 +14,7 @@
 From Coq Require Import List ZArith Bool.
 From TD Require Export Lib.HexBytes.
 From TD Require Import Lib.GoSem Lib.RunLib Impl.Crc32 Model.Codec Run.Check_C17.
+From TD Require Model.Obfs2 Model.FakeTls Proof.Obfs2Listen Run.Check_C18 Run.Check_C19.
 Import ListNotations.
 Open Scope Z_scope.
 
@@ -22,7 +23,14 @@ Inductive case :=
 | CAccept (wire : list Z) (frames : list (list Z)) (stop : Z * Z) (sent rnds : list (list Z)) (out : list Z)
 | CWrite (codec seq : Z) (rnd p : list Z) (res : Z * Z * list Z)
 | CListenCodec (codec : Z) (wire : list Z) (frames : list (list Z)) (stop : Z * Z)
-| CPrefix (codec seq : Z) (rnds ps : list (list Z)) (wire : list Z).
+| CPrefix (codec seq : Z) (rnds ps : list (list Z)) (wire : list Z)
+(* the whole stack: codec over obfuscated2 over FakeTLS over a chunking connection, server side
+   transport.Listen(transport.ObfuscatedListener(..)) reading through FakeTLS.Read *)
+| CStack (codec : Z) (rnds ps : list (list Z)) (orand : list Z) (dc : Z) (o : Check_C18.oracle)
+         (ws xs : list (list Z)) (wire_len wire_adler : Z) (reads : list Z)
+         (frames : list (list Z)) (stop : Z * Z).
+Definition mk_oracle ke ive kd ivd kse ksd : Check_C18.oracle :=
+  Check_C18.Build_oracle ke ive kd ivd [] [] kse ksd.
 
 Definition stop_of (s : stop) : Z * Z :=
   match s with StopErr e => kind_of e | StopPanic => (9, 0) | StopFuel => (11, 0) end.
@@ -78,6 +86,36 @@ Definition ok (c : case) : bool :=
     match write_seq (codec_of ci) seq rnds ps with
     | Ok w => zlist_eqb w (firstn (length w) wire)
     | _ => false
+    end
+  | CStack ci rnds ps orand dc o ws xs wl wa reads frames stop =>
+    let cd := codec_of ci in
+    let ks := Check_C18.ks_of o in
+    let sha := Check_C18.sha_of o in
+    match write_seq cd 0 rnds ps,
+          Obfs2.client_handshake ks sha (S (length orand)) orand (Obfs2Listen.obf_tag cd) dc [] with
+    | Ok W, Ok (hdr, cep, _) =>
+      let X := Obfs2.send_on ks (Obfs2.enc cep) ws in
+      zlist_eqb (concat ws) W && zlist_eqb (concat xs) (hdr ++ X) &&
+      match FakeTls.ftls_write_all false xs with
+      | Ok T =>
+        (zlen T =? wl) && (Check_C19.adler32 T =? wa) &&
+        (* the far end: FakeTLS.Read calls with the recorded buffer sizes deliver header + ciphertext *)
+        (let '(got, st) := FakeTls.drain (S (length reads)) (Check_C19.ks_fun reads) 0 ([], T) in
+         zlist_eqb got (hdr ++ X) && (Check_C19.kind_of st =? 1)) &&
+        match Obfs2.server_accept ks sha (hdr ++ X) [] with
+        | Ok ((p, _), sep, rest) =>
+          let plain := Obfs2.recv_on ks (Obfs2.dec sep) [(rest, false)] in
+          match detect (Obfs2.replay_tag p ++ plain) with
+          | Ok (cd', s) =>
+            let '(fs, st) := read_stream crc32 cd' 0 (S (S (length ps))) s in
+            list_eqb zlist_eqb fs frames && zz_eqb (stop_of st) stop
+          | _ => false
+          end
+        | _ => false
+        end
+      | _ => false
+      end
+    | _, _ => false
     end
   end.
 Definition mismatches (cs : list case) : list nat := mismatch_idx ok cs.
